@@ -985,7 +985,28 @@ def _never(er, h, bs, dom, ev, a_val):
     return None, None, n
 
 
+def rule_j(ctx, out):
+    """The encoder's registries are filled by somebody.  The hard constraints that range over 'everything created so far' (distinctness of
+    the theta values, the declarations) read instance registries of the term factories: an attribute that is initialised empty, read as a
+    collection, and that no statement can ever fill (no store, no mutating call, no alias handed out) makes its reader vacuous — the
+    constraint family derived from it silently disappears while every emitted formula stays well formed."""
+    from ..core.idioms import never_filled_registries
+    n = 0
+    for c, attr, reader, node in never_filled_registries(ctx, ("smt_encoding.",)):
+        n += 1
+        if reader is None:
+            out.ok({"class": c.qual, "registry": attr})
+        else:
+            out.bad(f"registry-read-but-never-filled:{c.name}.{attr}", f"{c.qual}: `self.{attr}` is initialised empty and read by {reader.name} "
+                    f"(`{short(getattr(node, '_parent', node), 60)}`), but no statement of the class stores into it, calls a mutating method on it or hands "
+                    f"it out: the reader always sees an empty collection, and what is derived from it (a constraint over every registered term) "
+                    f"is never generated", where(reader, node))
+    if n < 8:
+        raise AnalysisError(f"only {n} instance registries found in the encoder classes")
+
+
 RULES = [
+    ("C06.j", "registries the constraint generators read are filled somewhere", 8, rule_j),
     ("C06.i", "mandatory hard-constraint families are generated under every flag setting", 16, rule_i),
     ("C06.h", "stack constraints = transition relation of the stack machine (small instance)", 30, rule_h),
     ("C06.g", "order and multiplicity constraints mean what they are documented to mean", 14, rule_g),
